@@ -600,6 +600,11 @@ pub fn explore_main(prop: &dyn Prop, tier: Tier, replay_one: impl Fn(&Value) -> 
         for (k, r) in v["violations"].as_object().cloned().unwrap_or_default() {
             let e = viols.entry(k).or_insert((0, r["first"].clone()));
             e.0 += r["count"].as_u64().unwrap_or(0);
+            // keep the smallest witness of the class (workers enumerate simplest-first, so the
+            // first witness of each worker is small; the smallest of those is reported)
+            if !r["first"].is_null() && (e.1.is_null() || r["first"].to_string().len() < e.1.to_string().len()) {
+                e.1 = r["first"].clone();
+            }
         }
         for (k, r) in v["known"].as_object().cloned().unwrap_or_default() {
             let e = knowns.entry(k).or_insert((0, r["first"].clone()));
